@@ -13,8 +13,9 @@ Definition expected_asserts (fn : string) : option (list string) :=
   else if fn =? "generic_extend_from_within" then Some ["start"; "end"]
   else if fn =? "generic_replace_range" then Some ["start"; "end"]
   (* split_off: the branch that keeps the front asserts start, the one that keeps the back asserts end, the
-     branch for an interior (possibly empty: genuine defect 4) range asserts both *)
-  else if fn =? "split_off" then Some ["start"; "end"; "start"; "end"]
+     branch for an interior range asserts both - BEFORE the early return for an empty range (genuine defect 4:
+     the pinned commit returned first) *)
+  else if fn =? "split_off" then Some ["start"; "end"; "start"; "end"; "#empty-range-return"]
   else if fn =? "truncate" then Some ["new_len"]
   else if fn =? "drain" then Some ["start"; "end"]
   else None.
